@@ -756,6 +756,9 @@ pub fn run(run: &mut Run) {
     let jitter = *t.pick(&[0, 0, 5, 1000, 100_000]);
     let per_byte = *t.pick(&[0, 1, 100]);
     let with_bar = t.chance(1, 3);
+    // family: plain registry resolution, or the hand-over in `wac_cli::PackageResolver`
+    // (file-system lookup first, registry for what the disk does not hold)
+    let handover = t.chance(1, 4);
 
     // ---- registry ----
     let npk = t.range(1, 5) as usize;
@@ -812,6 +815,8 @@ pub fn run(run: &mut Run) {
                 None
             };
             (name, version)
+        } else if handover {
+            continue;
         } else {
             let name = t.pick(INVALID_POOL).to_string();
             let version = if t.chance(1, 2) {
@@ -834,6 +839,87 @@ pub fn run(run: &mut Run) {
     // request order
     t.shuffle(&mut keys);
 
+    // ---- hand-over family: some keys are also on the (simulated) disk ----
+    let mut disk: Vec<Option<Vec<u8>>> = vec![None; keys.len()];
+    let mut document_text = String::new();
+    let deps_dir = run.scratch.join(format!("c20-deps-{}", run.index));
+    if handover {
+        let _ = std::fs::remove_dir_all(&deps_dir);
+        document_text.push_str("package test:doc;\n");
+        for (i, k) in keys.iter().enumerate() {
+            if t.chance(1, 3) {
+                let bytes = format!("\0disk-content-of {}\n", k.show()).into_bytes();
+                let mut p = deps_dir.clone();
+                for seg in k.name.split(':') {
+                    p.push(seg);
+                }
+                if let Some(v) = &k.version {
+                    p.push(v.to_string());
+                }
+                let mut os = p.into_os_string();
+                os.push(".wasm");
+                let p = PathBuf::from(os);
+                if let Some(parent) = p.parent() {
+                    let _ = std::fs::create_dir_all(parent);
+                }
+                if std::fs::write(&p, &bytes).is_ok() {
+                    disk[i] = Some(bytes);
+                }
+            }
+            document_text.push_str(&format!("let x{i} = new {} {{ ... }};\n", k.show()));
+        }
+    }
+    // `<deps>/ns/name/<version>.wasm` makes `<deps>/ns/name` a directory, and a directory at
+    // the base path is never a `.wasm` package: an unversioned key of the same name is then
+    // not found on disk (documented layout, C18's subject) and goes to the registry.
+    if handover {
+        let shadowed: Vec<bool> = keys
+            .iter()
+            .map(|k| {
+                k.version.is_none()
+                    && keys
+                        .iter()
+                        .zip(disk.iter())
+                        .any(|(q, d)| q.name == k.name && q.version.is_some() && d.is_some())
+            })
+            .collect();
+        for (i, sh) in shadowed.iter().enumerate() {
+            if *sh {
+                disk[i] = None;
+            }
+        }
+    }
+    let document = if handover {
+        match wac_parser::Document::parse(&document_text) {
+            Ok(d) => Some(d),
+            Err(e) => {
+                run.harness(format!("generated hand-over document does not parse: {e}"));
+                return;
+            }
+        }
+    } else {
+        None
+    };
+    if let Some(doc) = &document {
+        // spans of the discovered keys are where the document mentions them
+        match wac_resolver::packages(doc) {
+            Ok(found) => {
+                for k in keys.iter_mut() {
+                    if let Some((_, span)) = found
+                        .iter()
+                        .find(|(fk, _)| fk.name == k.name && fk.version == k.version.as_ref())
+                    {
+                        k.span = *span;
+                    }
+                }
+            }
+            Err(e) => {
+                run.harness(format!("package discovery failed on the generated document: {e}"));
+                return;
+            }
+        }
+    }
+
     // ---- describe the scenario in the trace ----
     t.event(format!(
         "scenario faulty={faulty} plan={plan:?} flavour={flavour:?} eager={eager_timers} lat={base_latency}+{per_byte}/B±{jitter} bar={with_bar}"
@@ -851,6 +937,17 @@ pub fn run(run: &mut Run) {
         "keys [{}]",
         keys.iter().map(|k| k.show()).collect::<Vec<_>>().join(", ")
     ));
+    if handover {
+        t.event(format!(
+            "hand-over through wac_cli::PackageResolver; on disk: [{}]",
+            keys.iter()
+                .zip(disk.iter())
+                .filter(|(_, d)| d.is_some())
+                .map(|(k, _)| k.show())
+                .collect::<Vec<_>>()
+                .join(", ")
+        ));
+    }
 
     // ---- probes from the workload ----
     {
@@ -922,12 +1019,44 @@ pub fn run(run: &mut Run) {
     };
 
     let step_budget = 64 + 32 * keys.len() as u64 + 200 * (plan.dup_poll.min(1));
-    let root = Box::pin(async {
-        let resolver = RegistryPackageResolver::new(None, bar)
-            .await
-            .map_err(|e| format!("client construction failed: {e}"))?;
-        Ok::<_, String>(resolver.resolve(&key_map).await)
-    });
+    type Resolved<'k> = Result<IndexMap<BorrowedPackageKey<'k>, Vec<u8>>, Error>;
+    let keys_ref = &keys;
+    let root: Pin<Box<dyn Future<Output = Result<(Resolved<'_>, Vec<String>), String>> + '_>> = if let Some(doc) = &document {
+        let deps_dir = deps_dir.clone();
+        Box::pin(async move {
+            let mut resolver = wac_cli::PackageResolver::new(deps_dir, Default::default(), None)
+                .await
+                .map_err(|e| format!("resolver construction failed: {e}"))?;
+            // re-key the result by the requested keys (the result borrows from the document)
+            let mut extra = Vec::new();
+            let r = resolver.resolve(doc).await.map(|m| {
+                let mut out = IndexMap::new();
+                for (k, bytes) in m {
+                    match keys_ref
+                        .iter()
+                        .find(|q| q.name == k.name && q.version.as_ref() == k.version)
+                    {
+                        Some(q) => {
+                            out.insert(
+                                BorrowedPackageKey::from_name_and_version(&q.name, q.version.as_ref()),
+                                bytes,
+                            );
+                        }
+                        None => extra.push(k.to_string()),
+                    }
+                }
+                out
+            });
+            Ok((r, extra))
+        })
+    } else {
+        Box::pin(async {
+            let resolver = RegistryPackageResolver::new(None, bar)
+                .await
+                .map_err(|e| format!("client construction failed: {e}"))?;
+            Ok((resolver.resolve(&key_map).await, Vec::new()))
+        })
+    };
 
     crate::seams::clear_last_panic();
     let driven = std::panic::catch_unwind(std::panic::AssertUnwindSafe(|| {
@@ -997,8 +1126,24 @@ pub fn run(run: &mut Run) {
     run.add("executor_steps", steps);
     run.tape.event(format!("stop {stop:?} leftover_tasks={leftover}"));
 
+    if handover {
+        let _ = std::fs::remove_dir_all(&deps_dir);
+        run.probe("handover_runs");
+        if disk.iter().any(|d| d.is_some()) && disk.iter().any(|d| d.is_none()) {
+            run.probe("handover_disk_and_registry_mixed");
+        }
+    }
     let result = match (result, stop) {
-        (Some(Ok(r)), _) => r,
+        (Some(Ok((r, extra))), _) => {
+            if let Some(x) = extra.first() {
+                run.violate(
+                    "extra-key",
+                    format!("the result holds `{x}`, which was not requested; keys [{}]", show_keys(&keys)),
+                );
+                return;
+            }
+            r
+        }
         (Some(Err(e)), _) => {
             run.harness(e);
             return;
@@ -1026,7 +1171,15 @@ pub fn run(run: &mut Run) {
     };
 
     // ---- oracle ----
-    let expects: Vec<Expect> = keys.iter().map(|k| expect_for(&registry, k)).collect();
+    let expects: Vec<Expect> = keys
+        .iter()
+        .zip(disk.iter())
+        .map(|(k, d)| match d {
+            // a package found on disk is never asked of the registry
+            Some(bytes) => Expect::Content(bytes.clone()),
+            None => expect_for(&registry, k),
+        })
+        .collect();
     let first_invalid = expects.iter().position(|e| *e == Expect::InvalidName);
     let any_missing_pkg = expects.iter().any(|e| *e == Expect::NoPackage);
     let bad: Vec<usize> = (0..keys.len())
